@@ -5,6 +5,7 @@ its original.
 -/
 import OdmlModel.Model.Link
 import OdmlModel.Proofs.Merge
+import OdmlModel.Proofs.Str
 
 set_option linter.unusedSimpArgs false
 set_option linter.unusedVariables false
@@ -524,6 +525,94 @@ theorem linkStep_at_link (cv : Conv V) (fetch : Str → Option (Doc V)) (doc : D
       | none => rfl
       | some t' => cases t'; rfl
   have hx := (merge_name_type cv false { url := none, path := parsePath txt }
+      (cleanSec cv (deref fetch doc) (height l + 1) l) t).1.trans hc
+  exact secAt_updAt_same _ p doc l (keepsName_const p doc l _ hl hx) hl
+
+
+
+/-! ### The text of an include: `URL#path` -/
+
+/-- a text without the separator is not split -/
+theorem splitFirst_no_sep (sep : Char) (s : Str) (h : ∀ c ∈ s, (c == sep) = false) :
+    splitFirst sep s = (s, none) := by
+  induction s with
+  | nil => rfl
+  | cons c cs ih =>
+    have hc : (c == sep) = false := h c (List.mem_cons_self ..)
+    have := ih (fun d hd => h d (List.mem_cons_of_mem _ hd))
+    simp [splitFirst, hc, this]
+
+/-- the split is at the FIRST separator: whatever follows it — further separators included —
+    is the second part -/
+theorem splitFirst_append_sep (sep : Char) (s t : Str) (h : ∀ c ∈ s, (c == sep) = false) :
+    splitFirst sep (s ++ sep :: t) = (s, some t) := by
+  induction s with
+  | nil => simp [splitFirst]
+  | cons c cs ih =>
+    have hc : (c == sep) = false := h c (List.mem_cons_self ..)
+    have := ih (fun d hd => h d (List.mem_cons_of_mem _ hd))
+    simp [splitFirst, hc, this]
+
+theorem splitOn_absPath (n : Str) (ns : List Str)
+    (h : ∀ m ∈ n :: ns, ∀ c ∈ m, (c == '/') = false) :
+    Py.splitOn '/' (n ++ absPath ns) = n :: ns := by
+  induction ns generalizing n with
+  | nil =>
+    simp only [absPath, List.flatMap_nil, List.append_nil]
+    exact Py.splitOn_no_sep '/' n (h n (List.mem_cons_self ..))
+  | cons m ms ih =>
+    have hn := h n (List.mem_cons_self ..)
+    have : absPath (m :: ms) = '/' :: (m ++ absPath ms) := by
+      simp [absPath, List.flatMap_cons]
+    rw [this, Py.splitOn_append_sep '/' n _ hn,
+      ih m (fun x hx => h x (List.mem_cons_of_mem _ hx))]
+
+/-- `parsePath` reads back the position a canonical path text was written from, for names
+    without `/` (names with `/` cannot be addressed by a path at all: C14) -/
+theorem parsePath_absPath (ns : List Str) (h : ∀ m ∈ ns, ∀ c ∈ m, (c == '/') = false) :
+    parsePath (absPath ns) = ns := by
+  cases ns with
+  | nil => simp [parsePath, absPath, Py.splitOn]
+  | cons n ms =>
+    have : absPath (n :: ms) = '/' :: (n ++ absPath ms) := by
+      simp [absPath, List.flatMap_cons]
+    rw [parsePath, this]
+    have hs : Py.splitOn '/' ('/' :: (n ++ absPath ms)) = [] :: Py.splitOn '/' (n ++ absPath ms) := by
+      simp [Py.splitOn]
+    rw [hs, splitOn_absPath n ms h]
+    rfl
+
+/-- at a Section with an include `url#path` (no link): the Section is replaced, in place, by the
+    lenient merge of (its cleaned self) with the Section of the fetched document at that path -/
+theorem linkStep_at_include (cv : Conv V) (fetch : Str → Option (Doc V)) (doc : Doc V)
+    (p : List Str) (l t : Sec V) (txt u : Str) (tp : List Str) (term : Doc V)
+    (hl : secAt doc p = some l) (h1 : l.attrs.link = none) (hk : l.attrs.incl = some txt)
+    (hp : parseInclude txt = (u, some tp)) (hf : fetch u = some term)
+    (ht : secAt term tp = some t) :
+    let l1 := cleanSec cv (deref fetch doc) (height l + 1) l
+    let r := merge cv false { url := some u, path := tp } l1 t
+    (linkStep cv fetch doc p).2 = r.2 ∧ secAt (linkStep cv fetch doc p).1 p = some r.1 := by
+  simp only
+  have hstep : linkStep cv fetch doc p =
+      (updAt (fun _ => (merge cv false { url := some u, path := tp }
+          (cleanSec cv (deref fetch doc) (height l + 1) l) t).1) p doc,
+       (merge cv false { url := some u, path := tp }
+          (cleanSec cv (deref fetch doc) (height l + 1) l) t).2) := by
+    unfold linkStep
+    simp only [hl, h1, hk, hp, hf, ht, Option.map]
+  rw [hstep]
+  refine ⟨rfl, ?_⟩
+  have hc : (cleanSec cv (deref fetch doc) (height l + 1) l).name = l.name := by
+    unfold cleanSec
+    simp only [Sec.name, Sec.attrs_mk]
+    cases l.attrs.merged with
+    | none => rfl
+    | some r =>
+      simp only
+      cases deref fetch doc r with
+      | none => rfl
+      | some t' => cases t'; rfl
+  have hx := (merge_name_type cv false { url := some u, path := tp }
       (cleanSec cv (deref fetch doc) (height l + 1) l) t).1.trans hc
   exact secAt_updAt_same _ p doc l (keepsName_const p doc l _ hl hx) hl
 
